@@ -146,9 +146,39 @@ type compiled struct {
 	opRx     *regexp.Regexp
 }
 
+// inheritDefault takes the disruptive action, status and redirect target of the description's default action list.
+func (c *compiled) inheritDefault() {
+	c.disrupt = ""
+	for _, da := range c.d.Default {
+		switch da.Name {
+		case "deny":
+			c.disrupt = "deny"
+		case "pass":
+			c.disrupt = ""
+		case "redirect":
+			c.disrupt, c.redirect = "redirect", da.Value
+		case "status":
+			if n, err := strconv.Atoi(da.Value); err == nil {
+				c.status = n
+			}
+		}
+	}
+}
+
 // compile validates one description and resolves its actions.
 func compile(d Desc) (*compiled, error) {
 	c := &compiled{d: d, meta: RuleMeta{Phase: 2, Severity: -1}}
+	explicit := false // the rule names a disruptive action itself
+	defer func() {
+		// a rule without a disruptive action of its own takes the one of the default action list
+		if !explicit && len(d.Default) > 0 {
+			st := c.status
+			c.inheritDefault()
+			if st != 0 {
+				c.status = st
+			}
+		}
+	}()
 	for _, a := range d.Actions {
 		switch {
 		case valueless[a.Name]:
@@ -220,11 +250,19 @@ func compile(d Desc) (*compiled, error) {
 			}
 		case "deny":
 			c.disrupt = "deny"
+			explicit = true
+		case "block":
+			// the disruptive action (and status / redirect target) of the default action list of the rule's
+			// phase; without one the built-in default is pass
+			explicit = true
+			c.inheritDefault()
 		case "pass":
 			c.disrupt = ""
+			explicit = true
 		case "redirect":
 			c.disrupt = "redirect"
 			c.redirect = a.Value
+			explicit = true
 		}
 		if strings.Contains(a.Value, "%{") {
 			return nil, bad("macro-out-of-model")
